@@ -188,7 +188,7 @@ def sequence_for(mg, recipe, rng):
                 continue
             c = rng.choice(quads)
             op = ['split_column', {'col': G.col_loc(c), 'node': G.node_loc(rng.choice(c.node))}]
-        elif r < 0.27 and len(g.layerlist) > 1 and len(g.layerlist) < 30:
+        elif r < 0.27 and len(g.layerlist) > 1 and len(g.layerlist) < 20:
             lays = [l.name for l in g.layerlist[1:]]
             op = ['refine_layers', {'layers': rng.sample(lays, rng.randint(1, len(lays))) if rng.random() < 0.8 else [],
                                     'factor': rng.choice([2, 3, 4])}]
